@@ -6,6 +6,7 @@ COMMON_TB = [
     "Go harness: exact float<->rational encoding, generators, recover-based panic mapping",
     "correspondence is sampled: code = model only on the generated cases",
     "IEEE rounding of the Go code is not modelled (exact rational model + stated tolerance)",
+    "go/types shape pass (tools/extract/shape.go): call-graph reachability from the functions declared in the property's anchor files, per-function literals / package variables read / writes through parameters; its digest is compared with what the model mirrors by the kernel-evaluated theorem state_Cxx, and its constants are the generators' dictionary",
     "go/ast fact extractor (constants, literals of curated functions, package-level variables, their writers and readers, struct fields, function lists with receiver kinds, writes through parameters): regenerated on every run and compared with what the model accounts for by kernel-evaluated theorems facts_Cxx / state_Cxx",
 ]
 
@@ -257,3 +258,13 @@ META["C20"] = dict(
     assumptions=["KDE bandwidth is filled in (documented lazy write) before the concurrent block"],
     post=_race_post,
 )
+
+
+# devices every generator shares (harness/main.go), stated once
+COMMON_RULE = (" Shared devices: every slice handed to the library is a view with sentinel-filled spare capacity (guard cells) "
+               "whose contents are compared bit for bit after the call unless the entry point documents in-place modification; "
+               "sizes, arguments, thresholds and levels are also aimed at the numeric constants of the reachable code "
+               "(dictionary from the source on this run; constants the model does not know get the full cross product of "
+               "simple functions x ulp/relative neighbourhoods); minimised past failures (corpus/) run first.")
+for _p in META:
+    META[_p]["rule"] = META[_p]["rule"] + COMMON_RULE
